@@ -288,7 +288,8 @@ Definition mon2 (b : base) (m0 : mst2) (te : Z * ev) : list alarm :=
                 (* a notification arriving at the very instant the timer fires is unordered with it *)
                 let td' := if td =? t then match n_disc_prev x with Some p => p | None => td end else td in
                 t <? td' + grace_of c
-            | None => true
+            | None => negb (io_stopping (inst_of b i))   (* a stop call in progress has ended the obligations: the expiry handler
+                                                           and the stop race for the same demotion *)
             end) 1101 ++
       when ((cause =? sVerifyFail) && negb (existsb (fun v => let '(st, _, _) := v in negb (st =? 5)) (n_vers x))
             && negb (Nat.eqb (List.length (n_vers x)) 0)) 1103
